@@ -304,3 +304,59 @@ func sameOperand(a, b ssa.Value) bool {
 	}
 	return ca.Value.ExactString() == cb.Value.ExactString()
 }
+
+// FieldConsistent reports whether the branch outcomes recorded on the path are
+// consistent when repeated loads of the same receiver field are taken to yield
+// the same value (valid where the function does not store the field between the
+// tests): boolean fields must not be both true and false, and an integer field
+// must not equal two different constants / equal and differ from the same one.
+func (cp CFGPath) FieldConsistent() bool {
+	boolSeen := map[string]bool{}
+	eq := map[string]string{}          // field path -> constant it equals
+	ne := map[string]map[string]bool{} // field path -> constants it differs from
+	for cond, truth := range cp.Truth {
+		if f := LoadedField(cond); f != nil {
+			k := PathOf(cond)
+			if old, ok := boolSeen[k]; ok && old != truth {
+				return false
+			}
+			boolSeen[k] = truth
+			continue
+		}
+		b, ok := cond.(*ssa.BinOp)
+		if !ok || (b.Op != token.EQL && b.Op != token.NEQ) {
+			continue
+		}
+		x, y := b.X, b.Y
+		if LoadedField(x) == nil {
+			x, y = y, x
+		}
+		if LoadedField(x) == nil {
+			continue
+		}
+		c, isC := y.(*ssa.Const)
+		if !isC || c.Value == nil {
+			continue
+		}
+		k, cv := PathOf(x), c.Value.ExactString()
+		isEq := (b.Op == token.EQL) == truth
+		if isEq {
+			if old, ok := eq[k]; ok && old != cv {
+				return false
+			}
+			if ne[k][cv] {
+				return false
+			}
+			eq[k] = cv
+		} else {
+			if eq[k] == cv {
+				return false
+			}
+			if ne[k] == nil {
+				ne[k] = map[string]bool{}
+			}
+			ne[k][cv] = true
+		}
+	}
+	return true
+}
